@@ -22,7 +22,7 @@ META = {
                         '1..3, symbolic cells, int64 and float64, stride 1..3, key subsets; sound_trajectory: UNBOUNDED frame count, stride '
                         '1..8; parallel load: <=3 files of <=3 frames, stride 1..2, frame=, atom selection, both task orders, lengths hint '
                         'none/right/wrong; striped npy/h5 loading: <=3 files, stride 1..2',
-               'thorough': 'R up to 101 (99->100 boundary)'},
+               'thorough': 'R up to 101 (99->100 boundary); parallel loads of up to 4 files (length<=5), stride<=3; striped loads of up to 4 files; sound_trajectory stride<=32'},
     'stubs': ['tables = in-memory store whose list_nodes() returns children sorted by name (checked against real PyTables at run time)',
               'mdtraj.load/open = in-memory trajectories honouring stride / frame / atom_indices', 'multiprocessing.Pool = in-process '
               'task runner executing the tasks forward or in reverse order; multiprocessing.Array = shared array',
@@ -410,17 +410,17 @@ def jobs(tier):
             add('saveload_job', 'saveload[R=%d,subset]' % R, R=R, dtype='int64', subset=[R - 1, 0])
             add('saveload_job', 'saveload[R=%d,one key]' % R, R=R, dtype='int64', subset=[1 % R])
             add('saveload_job', 'saveload[R=%d,rectangular]' % R, R=R, dtype='int64', rect=True)
-    for s in range(1, 9):
+    for s in range(1, 9 if q else 33):
         add('sound_job', 'sound_trajectory[stride=%d,unbounded]' % s, stride=s)
-    for lens in ((2,), (1, 2), (3, 1), (2, 1, 3)):
-        for stride in (1, 2):
+    for lens in (((2,), (1, 2), (3, 1), (2, 1, 3)) if q else ((2,), (1, 2), (3, 1), (2, 1, 3), (1, 1, 1), (4, 2), (1, 4, 2, 3), (5, 1, 1))):
+        for stride in ((1, 2) if q else (1, 2, 3)):
             add('parload_job', 'parload[%s,stride=%d]' % (list(lens), stride), lens=lens, stride=stride)
         add('parload_job', 'parload[%s,hint=right]' % list(lens), lens=lens, hint='right')
         add('parload_job', 'parload[%s,hint=wrong]' % list(lens), lens=lens, hint='wrong')
         add('parload_job', 'parload[%s,atoms=[1]]' % list(lens), lens=lens, atoms=[1])
     add('parload_job', 'parload[[3, 2],frame= for file 0]', lens=(3, 2), frame_for=0)
     for kind in ('npy', 'h5'):
-        for lens in ((2,), (3, 2), (1, 3, 2)):
-            for stride in (1, 2):
+        for lens in (((2,), (3, 2), (1, 3, 2)) if q else ((2,), (3, 2), (1, 3, 2), (4, 1), (2, 2, 2), (1, 1, 5, 2))):
+            for stride in ((1, 2) if q else (1, 2, 3)):
                 add('striped_job', 'striped-%s[%s,stride=%d]' % (kind, list(lens), stride), kind=kind, lens=lens, stride=stride)
     return J
